@@ -147,7 +147,7 @@ theorem groupsG_single (o : Oracles) (ao : AggOracles) (db : Db) (env : Env) (f 
   have hk : ∀ (l : List (List Row)), (if ob.isEmpty = true then l else sortBy (grpLe o env cols ob) l).Perm l := by
     intro l; split
     · exact List.Perm.refl _
-    · exact sortBy_perm _ _
+    · exact ListAux.sortBy_perm _ _
   refine (hk _).trans ?_
   have h2 : ∀ v : Val, ((fun k => (sourceRowsG o ao db env f).filter (fun r => [evalE o env r e] == k)) ∘ fun v => [v]) v =
       rowsWith o env (sourceRowsG o ao db env f) e v := by
